@@ -53,6 +53,14 @@ type Scenario struct {
 	// "" = no reload; "nobf" = added stopped, session restarted, then started (the record has no bitfield);
 	// "partial" = some pieces on disk, verified, restarted; "full" = complete on disk, restarted
 	Resume string `json:"resume"`
+	// another torrent of the SAME session that announces to the same tracker URL and is added BEFORE the torrent under
+	// judgement: "" = none; "file" = a public torrent (other info-hash); "magnet" = a magnet link (other info-hash) carrying the URL
+	CoTenant string `json:"cotenant"`
+	// environment fault: the tracker answers the "stopped" event only after SlowStop ms (tracker-stop-timeout is the stock 5 s):
+	// the torrent stays in Stopping state that long
+	SlowStop int `json:"slowstop"`
+	// Config.DHTMinAnnounceInterval in ms (0 = stock): how often a torrent that needs peers queues a DHT request
+	DHTMinAnn int `json:"dhtminann"`
 	Seed     int64  `json:"seed"`
 }
 
@@ -72,7 +80,22 @@ var srcOfListener = map[string]string{"out": "tracker", "man": "manual", "pexa":
 var (
 	T   *vh.Tracer
 	hub *vh.SnapHub
+	// the runner whose torrent's loop is watched for the moment it leaves the running state on its own (refusal of the
+	// metadata): the line is logged ON THE LOOP GOROUTINE, at the occurrence point
+	watch atomic.Pointer[runner]
 )
+
+// onLoop is chained into hook H1 (runs on the loop goroutine of every torrent after every handled event).
+func onLoop(s *torrent.VerifSnap) {
+	r := watch.Load()
+	if r == nil || s.ID != r.tid || (s.Status != "Stopping" && s.Status != "Stopped") {
+		return
+	}
+	if r.refusedOnce.CompareAndSwap(false, true) {
+		r.emit(vh.Ev{"ev": "meta", "outcome": "refused", "msg": s.LastErr, "at": "loop", "status": s.Status})
+		close(r.refusedC)
+	}
+}
 
 func privateValue(enc string) (any, bool) {
 	switch enc {
@@ -335,6 +358,10 @@ type runner struct {
 	closed   bool         // r.sess is closed
 	full     bool         // the data is complete: the client does not dial
 	trkN     atomic.Int32 // announces (other than "stopped") seen by the tracker
+	coIH     string       // hex info-hash of the co-tenant
+	coN      atomic.Int32 // announces of the co-tenant seen by the tracker
+	refusedOnce atomic.Bool
+	refusedC    chan struct{}
 }
 
 // emit logs an event of THIS scenario; goroutines of a scenario that has ended (a tracker handler or a peer reader that is
@@ -562,7 +589,7 @@ func (r *runner) step(st Step) {
 		defer trk2.Close()
 	case "stopstart":
 		r.tr.Stop()
-		hub.Wait(r.tr.ID(), 3*time.Second, func(s *torrent.VerifSnap) bool { return s.Status == "Stopped" })
+		hub.Wait(r.tr.ID(), r.stopWait(), func(s *torrent.VerifSnap) bool { return s.Status == "Stopped" })
 		r.emit(vh.Ev{"ev": "stop"}) // the stop has taken effect (messages in flight before this point belong to the running torrent)
 		r.mu.Lock()
 		r.peers = map[string]*speer{}
@@ -574,7 +601,7 @@ func (r *runner) step(st Step) {
 		r.restart()
 	case "stop":
 		r.tr.Stop()
-		hub.Wait(r.tr.ID(), 3*time.Second, func(s *torrent.VerifSnap) bool { return s.Status == "Stopped" })
+		hub.Wait(r.tr.ID(), r.stopWait(), func(s *torrent.VerifSnap) bool { return s.Status == "Stopped" })
 		r.emit(vh.Ev{"ev": "stop"})
 		r.mu.Lock()
 		r.peers = map[string]*speer{}
@@ -639,6 +666,10 @@ func (r *runner) step(st Step) {
 	case "sleep":
 		time.Sleep(time.Duration(st.Ms) * time.Millisecond)
 	}
+}
+
+func (r *runner) stopWait() time.Duration {
+	return 3*time.Second + time.Duration(r.sc.SlowStop)*time.Millisecond
 }
 
 // waitUp waits until the started torrent has met its environment again: the tracker's peer is connected (a complete
@@ -844,7 +875,9 @@ func run(sc Scenario, dir string) {
 	if !ok {
 		return
 	}
-	r := &runner{sc: sc, peers: map[string]*speer{}, lst: map[string]*vh.PeerListener{}, metaGate: make(chan struct{}), dhtSeen: make(chan struct{}, 1)}
+	r := &runner{sc: sc, peers: map[string]*speer{}, lst: map[string]*vh.PeerListener{}, metaGate: make(chan struct{}), dhtSeen: make(chan struct{}, 1),
+		refusedC: make(chan struct{})}
+	defer watch.Store(nil)
 	for _, n := range []string{"out", "man", "pexa", "pexd", "dhtp"} {
 		r.listen(n)
 	}
@@ -859,6 +892,12 @@ func run(sc Scenario, dir string) {
 	}()
 	r.dhtPeer = r.lst["dhtp"].Addr
 	trk, err := vh.StartHTTPTracker(nil, "trk", func(q vh.AnnReq) vh.AnnReply {
+		if r.coIH != "" && q.InfoHash == r.coIH {
+			// the co-tenant of the session: no peers for it
+			r.emit(vh.Ev{"ev": "cotrk", "event": q.Event, "ua": q.UA})
+			r.coN.Add(1)
+			return vh.AnnReply{Interval: vh.I64(1800)}
+		}
 		if q.InfoHash != hex.EncodeToString(r.tor.InfoHash[:]) {
 			// not our torrent: a late announce of a session of another harness process whose tracker had this port
 			r.emit(vh.Ev{"ev": "stray", "what": "tracker-request"})
@@ -877,7 +916,7 @@ func run(sc Scenario, dir string) {
 		r.identPeerID("trk", id)
 		r.emit(vh.Ev{"ev": "ident", "what": "ua", "where": "trk", "cls": identClass(q.UA, privUA, torrent.DefaultConfig.TrackerHTTPPrivateUserAgent), "val": q.UA})
 		if q.Event == "stopped" {
-			return vh.AnnReply{Interval: vh.I64(1800)}
+			return vh.AnnReply{Interval: vh.I64(1800), Delay: time.Duration(sc.SlowStop) * time.Millisecond}
 		}
 		r.emit(vh.Ev{"ev": "trkreply"})
 		return vh.AnnReply{Interval: vh.I64(1800), Peers: []*net.TCPAddr{r.lst["out"].Addr}}
@@ -906,6 +945,17 @@ func run(sc Scenario, dir string) {
 	cfg.PrivatePeerIDPrefix = privPrefix
 	cfg.PrivateExtensionHandshakeClientVersion = privVer
 	cfg.TrackerHTTPPrivateUserAgent = privUA
+	if sc.SlowStop > 0 {
+		cfg.TrackerStopTimeout = torrent.DefaultConfig.TrackerStopTimeout
+		cfg.TrackerHTTPTimeout = cfg.TrackerStopTimeout
+	}
+	if sc.DHTMinAnn > 0 {
+		cfg.DHTMinAnnounceInterval = time.Duration(sc.DHTMinAnn) * time.Millisecond
+	}
+	co := sc.CoTenant
+	if co == "" {
+		co = "none"
+	}
 	var stub *dhtStub
 	if sc.DHT {
 		stub, err = startStub("127.0.0.1", "boot", r)
@@ -923,7 +973,7 @@ func run(sc Scenario, dir string) {
 		cfg.DHTBootstrapNodes = []string{stub.addr()}
 	}
 	r.emit(vh.Ev{"ev": "init", "enc": sc.Enc, "pex": b2i(sc.PEX), "dht": b2i(sc.DHT), "mode": sc.Mode, "sibling": b2i(sc.Sibling), "dhtbit": b2i(sc.DHTBit),
-		"ih": hex.EncodeToString(r.tor.InfoHash[:])})
+		"co": co, "slowstop": sc.SlowStop, "dhtminann": sc.DHTMinAnn, "ih": hex.EncodeToString(r.tor.InfoHash[:])})
 	r.cfg = cfg
 	sess, err := r.newSession()
 	if err != nil {
@@ -953,6 +1003,29 @@ func run(sc Scenario, dir string) {
 		sc.Resume = ""
 	}
 	magnetLink := "magnet:?xt=urn:btih:" + hex.EncodeToString(r.tor.InfoHash[:])
+	if sc.CoTenant != "" {
+		// the co-tenant comes first: its tracker object for the URL exists (and has announced) when T1 is added
+		cot := vh.Build(vh.Layout{Name: fmt.Sprintf("c19co-%d", sc.ID), PieceLen: 16384, Files: []vh.FileSpec{{Length: 2*16384 + 7}}}, sc.Seed+7777, [][]string{{trk.URL()}}, nil)
+		r.coIH = hex.EncodeToString(cot.InfoHash[:])
+		var cerr error
+		if sc.CoTenant == "magnet" {
+			_, cerr = sess.AddURI("magnet:?xt=urn:btih:"+r.coIH+"&tr="+trk.URL(), &torrent.AddTorrentOptions{ID: tid + "co"})
+		} else {
+			prov.Truth[tid+"co"] = cot
+			_, cerr = sess.AddTorrent(bytes.NewReader(cot.Bytes), &torrent.AddTorrentOptions{ID: tid + "co"})
+		}
+		if cerr != nil {
+			r.emit(vh.Ev{"ev": "skip", "what": "cotenant-add-error", "err": cerr.Error()})
+			return
+		}
+		for dl := time.Now().Add(3 * time.Second); r.coN.Load() == 0 && time.Now().Before(dl); {
+			time.Sleep(5 * time.Millisecond)
+		}
+		if r.coN.Load() == 0 {
+			r.emit(vh.Ev{"ev": "skip", "what": "cotenant-did-not-announce"})
+			return
+		}
+	}
 	if !r.stopped {
 		r.emit(vh.Ev{"ev": "start"})
 	}
@@ -1002,18 +1075,48 @@ func run(sc Scenario, dir string) {
 		if len(sc.Pre) > 0 {
 			time.Sleep(150 * time.Millisecond)
 		}
+		if sc.SlowStop > 0 {
+			if sc.DHT {
+				// the session hands one pending DHT request per second to its node (tick).  Serve the metadata 300 ms after a
+				// tick was seen (a query with the info-hash reached the stub): the announcer has queued the next request by
+				// then (dhtminann), and the next tick is far enough from the refusal to be told apart from a query in flight.
+				select {
+				case <-r.dhtSeen:
+				default:
+				}
+				select {
+				case <-r.dhtSeen:
+					time.Sleep(300 * time.Millisecond)
+				case <-time.After(2500 * time.Millisecond):
+					r.emit(vh.Ev{"ev": "note", "what": "no-dht-tick-seen-before-metadata"})
+				}
+			}
+			watch.Store(r)
+		}
+		stopC := r.tr.NotifyStop() // the channel of the running torrent (one value, sent when Stopped is reached)
 		r.emit(vh.Ev{"ev": "metaserve", "private": -1})
 		close(r.metaGate)
 		select {
 		case <-r.tr.NotifyMetadata():
 			r.emit(vh.Ev{"ev": "meta", "outcome": "adopted"})
-		case err := <-r.tr.NotifyStop():
+		case <-r.refusedC:
+			// (slow-stop scenarios) the loop logged the refusal when the torrent left the running state; it is in Stopping
+			// state until the tracker has answered the "stopped" event
+			select {
+			case <-stopC:
+			case <-time.After(r.stopWait() + 5*time.Second):
+				r.emit(vh.Ev{"ev": "skip", "what": "stopped-not-reached"})
+			}
+			hub.Wait(r.tr.ID(), 2*time.Second, func(s *torrent.VerifSnap) bool { return s.Status == "Stopped" })
+			r.emit(vh.Ev{"ev": "stopped"})
+		case err := <-stopC:
 			msg := ""
 			if err != nil {
 				msg = err.Error()
 			}
 			r.emit(vh.Ev{"ev": "meta", "outcome": "refused", "msg": msg})
 			hub.Wait(r.tr.ID(), 2*time.Second, func(s *torrent.VerifSnap) bool { return s.Status == "Stopped" })
+			r.emit(vh.Ev{"ev": "stopped"}) // NotifyStop fires when Stopped is reached
 		case <-time.After(4 * time.Second):
 			r.emit(vh.Ev{"ev": "meta", "outcome": "none"})
 		}
@@ -1065,6 +1168,7 @@ func main() {
 	}
 	T.AutoFlush = true
 	hub = vh.InstallSnapHub(T, false)
+	hub.ChainTracer(onLoop)
 	dir, _ := os.MkdirTemp(".", "c19")
 	defer os.RemoveAll(dir)
 	f, err := os.Open(*scf)
